@@ -978,6 +978,11 @@ func c18c(c *Ctx) {
 		})
 	}
 	c.Note("C18.c: %d index/slice sites, %d discharged by rule, %d by exemption", nSites, nDischarged, nExempt)
+	if os.Getenv("PSLINT_EXEMPT_USE") != "" {
+		for _, e := range exs {
+			fmt.Fprintf(os.Stderr, "EXEMPT-USE\t%s\t%s\t%d\n", e.Function, e.Match, e.used)
+		}
+	}
 	for _, e := range exs {
 		if e.Rule == "C18.c" && e.used == 0 && !strings.Contains(e.Operand, "*autoVarOperand") && !strings.Contains(e.Operand, "linkChunk") && !strings.Contains(e.Operand, "map reads") {
 			c.Note("stale exemption (matches nothing): %s %s", e.Function, e.Operand)
